@@ -120,6 +120,13 @@ CLAIMED.update({
     },
 })
 
+CLAIMED.update({
+    "C08": {
+        "text": "Four closed sub-systems searched by depth-bounded DFS with state-hash pruning, every transition executed by the real code: H1 claim + XR + dependent with a provider finalizer (Background / Foreground, both syncers); H2 XRD with the real definition and offered reconcilers, a recording controller engine, and a bound claim + XR that are only reconciled while their dynamic controller runs (composite CRD ours or foreign); H3 package revision + dependency Lock (real revision reconciler and PackageDependencyManager); H4 composed Usage + using + used resource. Events: user deletions (claim, XR, XRD, revision, Usage, using resource), one full reconcile of any controller on any object with an API fault or crash at any call, single garbage-collector steps (which one is a choice), third-party finalizer removal. Trace monitors at every write: claim finalizer removed only after an XR delete was issued (Foreground: XR gone); CRD deleted only with no instances and a stopped controller; controller stopped only with no instances; XRD finalizers removed only when the CRD is gone or never ours; revision finalized only when out of the Lock; composed Usage finalized only when its using resource is gone.",
+        "technique": "explicit-state search over event sequences (deletions, reconciles, GC steps) with the real reconcilers as transition functions, plus fault/crash-point enumeration",
+    },
+})
+
 PENDING_REASON = "not claimed yet: the check for this property is still being built (design in DESIGN.md section 3); no technique switch is intended"
 
 
